@@ -349,7 +349,7 @@ fn main() {
     let actual: u32 = std::env::var("C12_ACTUAL").ok().and_then(|s| s.parse().ok()).unwrap_or(0b111110111);
     let mut g = Gen { r: Rng(seed.wrapping_mul(104729).wrapping_add(7)), out: vec![] };
     let mut lay = Rng(seed ^ 0x9e3779b97f4a7c15);
-    let pool: Vec<String> = ["a", ";", ":", ",", "{", "}", "(", ")", "<", ">", "...", ".", "=", "->", "as", "func", "interface", "new", "u8", "a:b", "a:b/c", "\"s\"", "import", "with", "_", "[", "]", "static", "type", "1.0.0", "a:b@1.0", "A", "a-", "a:b-", "%x-y-", "a:b/c-"].iter().map(|s| s.to_string()).collect();
+    let pool: Vec<String> = ["a", ";", ":", ",", "{", "}", "(", ")", "<", ">", "...", ".", "=", "->", "as", "func", "interface", "new", "u8", "a:b", "a:b/c", "\"s\"", "import", "with", "_", "[", "]", "static", "type", "1.0.0", "a:b@1.0", "a:b@01.0.0", "a:b/c@1.+0.0", "A", "a-", "a:b-", "%x-y-", "a:b/c-"].iter().map(|s| s.to_string()).collect();
     let (mut texts, mut accepted, mut rejected) = (0u64, 0u64, 0u64);
     let mut findings = [0u64; 9];
     let mut first: [Option<String>; 9] = Default::default();
@@ -390,7 +390,10 @@ fn main() {
         "package a:b ; type t = result < _ , _ > ;", "package a:b ; type t = result < _ > ;", "package a:b ; import A : func ( ) ;", "package a:b ; import aB : func ( ) ;",
         "package a:b@1.0 ;", "package a:b@1.0.0-rc.1+build ;", "package a:b targets c:d ;", "package a:b ; import interface : func ( ) ;", "package a:b ; import %interface : func ( ) ;",
         "package a:b ; let x = new c:d { a , } ;", "package a:b ; let x = new c:d { a , ... , } ;", "package a:b ; export x ... as y ;", "package a:b ; let x = y . z [ \"s\" ] ;",
-        "package a:b ; record r { a : u8 , , }", "package a:b ; import x : a:b/c@1.0.0 ;", "package a:b ; import x : a:b@1.0.0 ;", "package a:b ; world w { import a:b/c ; export x : interface { } ; }", "package a:b ; type x- = string ;", "package a:b- ;", "package a:b ; import x : a:b-/c ;",
+        "package a:b ; record r { a : u8 , , }", "package a:b ; import x : a:b/c@1.0.0 ;", "package a:b ; import x : a:b@1.0.0 ;", "package a:b ; world w { import a:b/c ; export x : interface { } ; }", "package a:b ; type x- = string ;", "package a:b- ;",
+        // versions that are not valid semver: leading zeros, explicit signs, two or four numeric parts
+        "package a:b@01.2.3 ;", "package a:b@1.2.03 ;", "package a:b@1.+2.3 ;", "package a:b@1.2 ;", "package a:b@1.2.3.4 ;", "package a:b@1.2.3-01 ;", "package a:b@0.0.0 ;",
+        "package a:b ; import x : c:d/e@00.1.0 ;", "package a:b ; let x = new c:d@1.02.3 { } ;", "package a:b targets c:d/w@1.2.+3 ;", "package a:b ; world w { import c:d/e@01.0.0 ; include c:d/w@1.0.00 ; }", "package a:b ; import x : a:b-/c ;",
     ];
     for (ci, c) in corners.iter().enumerate() {
         let toks: Vec<String> = c.split(' ').map(|s| s.to_string()).collect();
